@@ -89,6 +89,10 @@ pub struct DecCheck<'a> {
     pub fills: Vec<u8>,
     /// also enumerate histories that switch between the output methods call by call
     pub mixed_sinks: bool,
+    /// add, for every enumerated history, variants that alternate UTF-8/UTF-16 output and
+    /// with-/without-replacement methods call by call (C07: a query in a state left by a
+    /// different method)
+    pub mixed_all: bool,
 }
 
 fn nontrivial_mark(st: &mut Stats, enumerated: bool, h: &DecHistory) {
@@ -160,13 +164,21 @@ pub fn run_dec_check(ctx: &Ctx, check: &DecCheck) -> Stats {
                             for last_on_empty in [false, true] {
                                 for (pi, caps) in pats.iter().enumerate() {
                                     let fill = check.fills[(pi + cuts.len()) % check.fills.len()];
-                                    let pure = DecHistory { enc, mode, sink, repl, stream: stream.clone(), cuts: cuts.clone(), last_on_empty, caps: caps.clone(), fill, align: (si + pi) & 15, sinks_per_call: vec![] };
+                                    let pure = DecHistory { enc, mode, sink, repl, stream: stream.clone(), cuts: cuts.clone(), last_on_empty, caps: caps.clone(), fill, align: (si + pi) & 15, sinks_per_call: vec![], repls_per_call: vec![] };
                                     let mut variants = vec![pure];
                                     if check.mixed_sinks && (pi + cuts.len()) % 3 == 0 {
                                         // the same history switching between the output methods call by call
                                         let mut m = variants[0].clone();
                                         m.sinks_per_call = vec![[Sink::Utf8, Sink::Utf16, Sink::Str, Sink::String][(si + pi) & 3], sink, [Sink::Utf16, Sink::Utf8, Sink::String][pi % 3]];
                                         variants.push(m);
+                                    }
+                                    if check.mixed_all && stream.len() <= 5 && cuts.len() <= 1 && !last_on_empty {
+                                        for (sp, rp) in [(vec![Sink::Utf8, Sink::Utf16], vec![]), (vec![Sink::Utf16, Sink::Utf8], vec![]), (vec![], vec![false, true]), (vec![], vec![true, false]), (vec![Sink::Utf8, Sink::Utf16], vec![true, true, false])] {
+                                            let mut m = variants[0].clone();
+                                            m.sinks_per_call = sp;
+                                            m.repls_per_call = rp;
+                                            variants.push(m);
+                                        }
                                     }
                                     for h in &variants {
                                         st.evals += 1;
@@ -244,7 +256,7 @@ pub fn run_dec_check(ctx: &Ctx, check: &DecCheck) -> Stats {
                             let cap = (l + delta).saturating_sub(2).max(sink.min_cap());
                             for caps in [vec![cap], vec![cap, 64]] {
                                 for cuts in [vec![], vec![run_bytes], vec![run_bytes + 1]] {
-                                    let h = DecHistory { enc, mode: check.modes[0], sink, repl, stream: stream.clone(), cuts, last_on_empty: delta & 1 == 1, caps: caps.clone(), fill: check.fills[delta % check.fills.len()], align: (l + delta) & 15, sinks_per_call: vec![] };
+                                    let h = DecHistory { enc, mode: check.modes[0], sink, repl, stream: stream.clone(), cuts, last_on_empty: delta & 1 == 1, caps: caps.clone(), fill: check.fills[delta % check.fills.len()], align: (l + delta) & 15, sinks_per_call: vec![], repls_per_call: vec![] };
                                     st.evals += 1;
                                     st.class("ascii-run-then-sequence-at-the-output-limit");
                                     if let Some((msg, sig)) = (check.verdict)(&h, &mut sc, st, true) {
@@ -397,8 +409,8 @@ pub fn verdict_c02(h: &DecHistory, sc: &mut Scratch, st: &mut Stats, enumerated:
     if got.is_none() {
         return Some(("concatenated output is not well-formed".into(), "C02:illformed".into()));
     }
-    if !h.sinks_per_call.is_empty() {
-        st.class("mixed-output-methods");
+    if h.is_mixed() {
+        st.class("mixed-output-or-replacement-methods");
     }
     if got != r.scalars {
         return Some((format!("text differs from the single-call result: chunked [{}] single [{}]", fw::hex32(got.as_ref().unwrap()), fw::hex32(r.scalars.as_ref().unwrap_or(&vec![]))), "C02:text".into()));
@@ -406,7 +418,7 @@ pub fn verdict_c02(h: &DecHistory, sc: &mut Scratch, st: &mut Stats, enumerated:
     if out.had_errors != r.had_errors {
         return Some((format!("had_errors differs: chunked {} single {}", out.had_errors, r.had_errors), "C02:had_errors".into()));
     }
-    if !h.repl && out.errors != r.errors {
+    if !h.repl && h.repls_per_call.is_empty() && out.errors != r.errors {
         return Some((format!("absolute malformed reports differ: chunked {:?} (raw {:?}) single {:?}", out.errors, out.raw_malformed, r.errors), "C02:errors".into()));
     }
     if out.final_enc.map(|e| e.name()) != r.final_enc.map(|e| e.name()) {
@@ -521,6 +533,7 @@ pub fn verdict_c09(h: &DecHistory, sc: &mut Scratch, st: &mut Stats, enumerated:
     let mut hr = h.clone();
     hr.repl = true;
     hr.sinks_per_call.clear();
+    hr.repls_per_call.clear();
     // the &mut str and String variants are with-replacement methods too: they are driven as they
     // are, and the twin runs decode_to_utf8_without_replacement into a buffer of the same size
     let out = sc.drv.run(&hr);
@@ -709,7 +722,7 @@ pub fn verdict_c10(h: &DecHistory, sc: &mut Scratch, st: &mut Stats, enumerated:
     if out.had_errors != r.had_errors {
         return Some((format!("had_errors {} but expected {}", out.had_errors, r.had_errors), "C10:had_errors".into()));
     }
-    if !h.repl {
+    if !h.repl && h.repls_per_call.is_empty() {
         let shifted: Vec<(usize, usize)> = r.errors.iter().map(|(s, l)| (s + bomlen, *l)).collect();
         if out.errors != shifted {
             return Some((format!("absolute malformed reports {:?} (raw {:?}) differ from expected {:?}", out.errors, out.raw_malformed, shifted), "C10:errors".into()));
